@@ -238,5 +238,36 @@ CHECKS["C11"] = dict(
     technique="TLA+ pattern semantics enumerated with TLC; every pattern replayed through the match API",
 )
 
+CHECKS["C17"] = dict(
+    engine="ClassModel",
+    category="exploration",
+    text=("ClassModel.tla: metamodel of three dataclasses (optional single / two-level inheritance, up to 2 fields each over 17 "
+          "annotation kinds incl. Optional / List / Set / Sequence / Type wrappers, forward references, private fields, "
+          "references to outside classes) with the expected diagram (nodes, direct-base inheritance edges, association edges "
+          "incl. inherited fields) and the positive classification of each field, evaluated by TLC on seeded random samples. "
+          "Each model is synthesised (one module, or one module per class with TYPE_CHECKING-only imports so that forward "
+          "references resolve through the diagram), ClassDiagram is built in two class orders and over a re-executed K1 "
+          "module, every field predicate is read and three read-only operations are applied with a snapshot before/after."),
+    design_ref="DESIGN.md §4 C17",
+    note=("Trusted: TLC, the synthesiser (model -> dataclass source). One wrapper level per annotation. The content of derived "
+          "views is recorded as drift only (the property speaks about the source diagram)."),
+    technique="TLA+ class-model metamodel sampled with TLC; synthesised dataclass modules passed through ClassDiagram and inspected",
+)
+CHECKS["C06"] = dict(
+    engine="ClassModel",
+    category="exploration",
+    text=("ClassModel.tla Schema: DAO per class with the right base, a column per public scalar / enum / datetime / list-of-builtins "
+          "field declared in that class (type, nullability), a nullable foreign key + scalar relationship per reference, an "
+          "association table + list relationship per collection (also visible on subclasses), nothing for private fields; TLC "
+          "evaluates it on seeded random models. Each model is synthesised (single module / one module per class), ORMatic "
+          "generates the SQLAlchemy module from the working tree three times (bytes equal, also after calling make_all_tables "
+          "twice), the module is imported, mappers configured, the schema created on SQLite, one instance per class stored, "
+          "and every mapper inspected."),
+    design_ref="DESIGN.md §4 C06",
+    note=("Trusted: TLC, the synthesiser, SQLAlchemy's mapper inspection. Open finding C06-F10 (collection of the class's own type) "
+          "attributed by signature + DuplicateColumnError."),
+    technique="TLA+ expected-schema model sampled with TLC; synthesised models passed through ORMatic, imported and inspected",
+)
+
 NOT_YET = "check not built yet in this build round (specified in DESIGN.md §4; will be claimed when its TLA+ module and binding exist)"
 NOT_APPLICABLE = {}
